@@ -504,6 +504,9 @@ pub enum BraceExpressionMember {
         end: i64,
         /// Increment value.
         increment: i64,
+        /// Minimum width of every term, reached by zero padding (a sign counts); zero
+        /// when neither bound is written with a leading zero.
+        width: usize,
     },
     /// An inclusive character sequence.
     CharSequence {
@@ -748,7 +751,11 @@ peg::parser! {
             }
 
         pub(crate) rule brace_sequence_expr() -> BraceExpressionMember =
-            start:number() ".." end:number() increment:(".." n:number() { n })? {?
+            start:spelled_number() ".." end:spelled_number() increment:(".." n:number() { n })? {?
+                // A bound written with a leading zero pads every term to the wider spelling.
+                let (start, start_width) = start;
+                let (end, end_width) = end;
+                let width = start_width.max(end_width);
                 // N.B. Like bash, refuse a sequence with more elements than fit an int: the
                 // braces are then left as they are instead of exhausting memory.
                 let increment = increment.unwrap_or(1);
@@ -758,11 +765,18 @@ peg::parser! {
                     return Err("sequence too long");
                 }
 
-                Ok(BraceExpressionMember::NumberSequence { start, end, increment })
+                Ok(BraceExpressionMember::NumberSequence { start, end, increment, width })
             } /
             start:character() ".." end:character() increment:(".." n:number() { n })? {
                 BraceExpressionMember::CharSequence { start, end, increment: increment.unwrap_or(1) }
             }
+
+        // A number together with the width of its spelling if that has a leading zero (else 0).
+        rule spelled_number() -> (i64, usize) = text:$(number_sign()? ['0'..='9']+) n:({? text.parse::<i64>().map_err(|_| "number out of range") }) {
+            let digits = text.trim_start_matches(['-', '+']);
+            let width = if digits.len() > 1 && digits.starts_with('0') { text.len() } else { 0 };
+            (n, width)
+        }
 
         rule number() -> i64 = sign:number_sign()? n:$(['0'..='9']+) {?
             // A numeral that does not fit is not a sequence bound: the braces stay literal.
